@@ -18,7 +18,7 @@ from . import rules
 def _second_reading(prop, tier, seed, root, mod, ctx):
     """A shape that was not read (errors, no finding) is read once more on the helper-flattened program (kverif.flatten: an
     exact source-to-source normalisation that undoes 'extract helper' / 'wrapper + worker').  The second reading replaces
-    the first only when it is complete (no error of its own); whatever it then reports is about the same program."""
+    the first only when it is complete and clean: every obligation discharged on a program that computes the same thing."""
     if not ctx.result.errors or ctx.result.findings or os.environ.get("KVERIF_NO_FLATTEN") == "1":
         return ctx
     from .engine import Context
@@ -26,6 +26,8 @@ def _second_reading(prop, tier, seed, root, mod, ctx):
         ctx2 = Context(prop, tier, seed, root, flatten=True)
         if not ctx2.flattened:
             return ctx
+        from .rules import common as _common
+        _common.STRICT_LOOPS, _common.FLATTENED = True, set(ctx2.flattened)
         mod.run(ctx2)
         if ctx2.thorough and hasattr(mod, "run_thorough"):
             mod.run_thorough(ctx2)
@@ -39,6 +41,17 @@ def _second_reading(prop, tier, seed, root, mod, ctx):
         return ctx
     if ctx2.result.errors:
         ctx.result.note("second reading (helper-flattened program) incomplete as well: " + " | ".join(e[:300] for e in ctx2.result.errors[:3]))
+        return ctx
+    from .report import load_known, match_known
+    known = load_known()
+    unlisted = [f for f in ctx2.result.findings if match_known(known, f) is None]
+    if unlisted and os.environ.get("KVERIF_ADOPT_SECOND") != "1":
+        # The rules were hardened against several hundred correct rewrites in the form people write code in; the flattened
+        # form (loops of a worker inlined next to the caller's own) is outside that experience, and a rule that picks "the
+        # loop" of a function may pick the wrong one there.  So the second reading may clear, it never accuses: what it
+        # reports is recorded, the answer stays "not read".
+        ctx.result.note("second reading (helper-flattened program) reports, not adopted: "
+                        + " | ".join(f"[{f.rule}] {f.module}.{f.function}: {f.message[:160]}" for f in unlisted[:4]))
         return ctx
     ctx2.result.note("first reading incomplete (" + "; ".join(e[:160] for e in ctx.result.errors[:3]) + "); decided on the helper-flattened program: "
                      + "; ".join(f"{f} <- {', '.join(h)}" for f, h in sorted(ctx2.flattened.items())))
